@@ -314,8 +314,14 @@ def run_history_forked(hist, ref):
 
 def histories_part(tier, seed, ref):
     names = list(_ops())
-    depth = 3 if tier == 'quick' else 4
+    depth = 3
     hists = [h for k in range(0, depth + 1) for h in itertools.product(names, repeat=k)]
+    if tier != 'quick':
+        # depth 4 over the operations that touch process-wide state or leave something unfinished behind
+        core_ops = ['parse-raises', 'format-invalid', 'stream-abandoned', 'stream-suspended', 'probe-texts-abandoned',
+                    'reconfigure-and-reset', 'second-lexer', 'edit-returned-trees', 'clear-and-reset',
+                    'format-overflows-inside-filter', 'cli-main']
+        hists += list(itertools.product(core_ops, repeat=4))
     hists = core.rotate(hists, seed)
 
     def work(chunk):
@@ -330,7 +336,7 @@ def histories_part(tier, seed, ref):
     states = {}
     for h in sorted(dig_of, key=lambda x: (len(x), x)):
         states.setdefault(dig_of[h], h)
-    frontier = [h for h in states.values() if len(h) == depth]
+    frontier = [h for h in states.values() if len(h) >= depth]
     transitions = set()
     for h, r in res:
         if h:
@@ -363,7 +369,7 @@ def histories_part(tier, seed, ref):
             culprit = _culprit(h, res)
             viols.append({'kind': 'history-changes-results', 'sig': 'after:' + culprit, 'history': list(h),
                           'text': ' ; '.join(h), 'detail': r.get('error') or r.get('diff'), 'size': len(h)})
-    return {'histories': len(hists), 'depth': depth, 'operations': names, 'states': len(states),
+    return {'histories': len(hists), 'depth': depth if tier == 'quick' else '3 (all operations) + 4 (11 state-touching operations)', 'operations': names, 'states': len(states),
             'transitions': len(transitions), 'fixpoint_extra_runs': extra, 'fixpoint_capped': capped,
             'state_examples': {d: list(h) for d, h in list(states.items())[:6]}}, viols
 
